@@ -266,7 +266,7 @@ def run_sql(ck):
                       "case": witness_rows(worst, "a select with HAVING and without GROUP BY"), "sql": worst["sql"][0][:3000],
                       "failing_input": "any database: the statement is not valid ClickHouse SQL (documentation of the HAVING clause)",
                       "replay": "harness logqlsql --cases <file with this case>"})
-    # ---- spec oracle 1e: the series key of a range aggregation is the label set the pipeline leaves (finding drop-keeps-fingerprint)
+    # ---- spec oracle 1e: the series key of a range aggregation is the label set the pipeline leaves (defect drop-keeps-fingerprint, repaired)
     st_hits = [c for c in allc if c.get("sql") and stale_fingerprint_grouping(c["sql"][0])]
     ck.extra["drop_stale_fingerprint_hits"] = len(st_hits)
     if st_hits:
@@ -278,7 +278,7 @@ def run_sql(ck):
             ck.obligation("spec oracle: a range aggregation groups by a fingerprint of the labels the pipeline leaves", False, worst["query"])
             ck.violation({"property": "C08", "part": "output_series_are_grouped_label_sets", "kind": "a drop stage rewrites the labels and keeps the fingerprint; the range aggregation groups by the stale fingerprint",
                           "case": witness_rows(worst, "select with mapFilter((k,v) -> k!=...) as labels and no cityHash64(...) as fingerprint before GROUP BY fingerprint, timestamp_ns"), "sql": worst["sql"][0][:3000],
-                          "failing_input": "two streams that differ only in a dropped label, one line each in one window: two series with one label set instead of one (theorem logql_metric_correct_from_stored_data_refuted)",
+                          "failing_input": "two streams that differ only in a dropped label, one line each in one window: two series with one label set instead of one (corpus witness id 12; theorem drop_stage_merges_equal_streams states the repaired behaviour)",
                           "replay": "harness logqlsql --cases <file with this case>"})
     # ---- spec oracle 2: aggregate fragments read back from the implementation's SQL
     lra, agg = observations(allc)
